@@ -100,6 +100,9 @@ func ruleCONC1(w *World) []Ob {
 	p := w.D()
 	l := &obs{rule: "CONC-1", cfg: "D"}
 	sends := allSendSites(p)
+	for _, o := range poolObligations(p) {
+		l.add(o)
+	}
 	for _, fn := range libFuncs(p) {
 		fid := p.FuncID(fn)
 		num := numbered{}
@@ -183,17 +186,35 @@ func boundedBufferedSend(p *Prog, s *ssa.Send, sends []sendSite) (bool, string) 
 		return false, "the sending goroutine is started in a loop"
 	}
 	for _, o := range sends {
-		if resolveArg(p, o.ch) == ssa.Value(mc) && o.fn != g {
+		if o.fn != g && (resolveArg(p, o.ch) == ssa.Value(mc) || containsValue(resolveArgAll(p, o.ch, 0), mc)) {
 			return false, "another function (" + p.FuncID(o.fn) + ") also sends on this channel"
 		}
 	}
-	// the channel must not be handed to any function (a callee could send)
+	// the channel must not be handed to any function (a callee could send); a direction conversion (chan<- T) is
+	// still the channel
+	var handles []ssa.Value
 	for _, ld := range cellLoadsOfValue(mc) {
+		handles = append(handles, ld)
+	}
+	for i := 0; i < len(handles); i++ {
+		if handles[i].Referrers() == nil {
+			continue
+		}
+		for _, r := range *handles[i].Referrers() {
+			if ct, ok := r.(*ssa.ChangeType); ok {
+				handles = append(handles, ct)
+			}
+		}
+	}
+	for _, ld := range handles {
 		for _, r := range *ld.Referrers() {
 			if ci, ok := r.(ssa.CallInstruction); ok {
 				for _, a := range ci.Common().Args {
-					if a == ssa.Value(ld) {
+					if a == ld {
 						if _, isB := ci.Common().Value.(*ssa.Builtin); !isB && ci != ssa.CallInstruction(gi) {
+							if recvOnlyParam(ci, a) {
+								continue
+							}
 							return false, "the channel is passed to " + calleeString(ci.Common()) + ", which could send on it"
 						}
 					}
@@ -216,6 +237,12 @@ func boundedBufferedSend(p *Prog, s *ssa.Send, sends []sendSite) (bool, string) 
 		}
 	}
 	return true, fmt.Sprintf("single send per goroutine into make(chan, %d) owned by a goroutine started once; no other sender", n)
+}
+
+// recvOnlyParam: the argument a of ci is received as a <-chan T (the callee cannot send on it).
+func recvOnlyParam(ci ssa.CallInstruction, a ssa.Value) bool {
+	ch, ok := a.Type().Underlying().(*types.Chan)
+	return ok && ch.Dir() == types.RecvOnly
 }
 
 // cellLoadsOfValue: loads of the variable(s) that the value v is stored into (plus v itself as a pseudo-load).
@@ -684,6 +711,37 @@ func ruleCONC3(w *World) []Ob {
 			}
 			continue
 		}
+		if derive == nil && ctxParam == nil {
+			// a function that starts stages (hands a context to module functions) on a context it neither received as
+			// a parameter nor derived: an operation running on a context that outlives it / is shared with other calls
+			var first ssa.Instruction
+			what := ""
+			for _, f := range family {
+				allInstrs(f, func(in ssa.Instruction) {
+					ci, ok := in.(ssa.CallInstruction)
+					if !ok || first != nil {
+						return
+					}
+					callees := p.ModCallees(ci)
+					if len(callees) == 0 {
+						return
+					}
+					for _, a := range ci.Common().Args {
+						if isContextType(a.Type()) {
+							o := ctxOriginOf(a, 0)
+							if o.kind == "background" {
+								continue
+							}
+							first, what = in, describeCtx(o)
+						}
+					}
+				})
+			}
+			if first != nil {
+				l.bad(fid, "operation context", p.InstrPos(first), "the stages are started on "+what+", which this operation neither derives nor cancels itself: a second operation with the same option value runs on a context the first one has already cancelled, and a context the caller keeps alive leaves this operation's goroutines waiting", "operation")
+			}
+			continue
+		}
 		if ctxParam != nil {
 			// a stage: all uses root at the parameter (possibly via derivations from it)
 			construct := "stage context " + ctxParam.Name()
@@ -730,6 +788,246 @@ func ruleCONC3(w *World) []Ob {
 				l.bad(fid, construct, p.Pos(fn.Pos()), strings.Join(wrong, "; "), "stage")
 			} else {
 				l.ok(fid, construct, p.Pos(fn.Pos()), fmt.Sprintf("%d context use(s), all rooted at the ctx parameter", nUses), true, "stage")
+			}
+			// the collectors' joint verdict: a stage closes its error channel whenever it stops — also when it stops
+			// because the operation was cancelled — so a collector can see "closed, no error" before it sees the
+			// cancellation.  "No stage reported an error" therefore counts as success only if ctx.Err() is consulted:
+			// either the function returns ctx.Err() wherever it could return nil, or every collector does.
+			{
+				var wait *ssa.Call
+				allInstrs(fn, func(in ssa.Instruction) {
+					if c, ok := in.(*ssa.Call); ok && calleeFullName(c.Common()) == "(*golang.org/x/sync/errgroup.Group).Wait" {
+						wait = c
+					}
+				})
+				if wait != nil {
+					nc := newNilCtxCached(p)
+					isCtxErr := func(v ssa.Value) bool {
+						c, ok := resolve(v).(*ssa.Call)
+						if !ok || !c.Common().IsInvoke() || methodName(c.Common().Method) != "Err" || !isContextType(c.Common().Value.Type()) {
+							return false
+						}
+						o := ctxOriginOf(c.Common().Value, 0)
+						for o.kind == "derived" {
+							cc, isC := o.root.(*ssa.Call)
+							if !isC {
+								break
+							}
+							var parent ssa.Value
+							for _, a := range cc.Common().Args {
+								if isContextType(a.Type()) {
+									parent = a
+								}
+							}
+							if parent == nil {
+								break
+							}
+							o = ctxOriginOf(parent, 0)
+						}
+						return o.kind == "param" && o.root == ssa.Value(ctxParam)
+					}
+					maybeNilReturns := func(f *ssa.Function) (bad []string) {
+						allInstrs(f, func(in ssa.Instruction) {
+							r, ok := in.(*ssa.Return)
+							if !ok {
+								return
+							}
+							for _, v := range rr(r) {
+								if !isErrorType(v.Type()) {
+									continue
+								}
+								if nc.nonNil(v, r, 0) || isCtxErr(v) {
+									continue
+								}
+								bad = append(bad, p.InstrPos(r))
+							}
+						})
+						return bad
+					}
+					fnBad := maybeNilReturns(fn)
+					var colBad []string
+					nCol := 0
+					allInstrs(fn, func(in ssa.Instruction) {
+						c, ok := in.(*ssa.Call)
+						if !ok || calleeFullName(c.Common()) != "(*golang.org/x/sync/errgroup.Group).Go" {
+							return
+						}
+						nCol++
+						switch x := resolve(c.Common().Args[1]).(type) {
+						case *ssa.MakeClosure:
+							colBad = append(colBad, maybeNilReturns(x.Fn.(*ssa.Function))...)
+						default:
+							colBad = append(colBad, p.InstrPos(c)+" (collector not a closure literal)")
+						}
+					})
+					construct := "no stage error means success only if not cancelled"
+					switch {
+					case len(fnBad) == 0:
+						l.ok(fid, construct, p.InstrPos(wait), "every return is a proven non-nil error or ctx.Err() of the stage's context", true, "verdict")
+					case nCol > 0 && len(colBad) == 0:
+						l.ok(fid, construct, p.InstrPos(wait), "every collector returns a proven non-nil error or ctx.Err()", true, "verdict")
+					default:
+						l.bad(fid, construct, p.InstrPos(wait), "the joint result of the collectors is returned as it is (possibly nil) at "+strings.Join(dedupSorted(fnBad), ", ")+", and a collector returns nil for a closed error channel without consulting the context: a stage that stopped because the operation was cancelled closes its channel like one that finished, so a cancelled operation can report success with part of its work undone", "verdict")
+					}
+				}
+			}
+			// join: "once the call has returned no goroutine it started remains" needs the returning function to have
+			// observed every stage's termination.  The only termination signal a stage gives is closing its error
+			// channel (after its workers were joined), so every return must come after each channel was seen closed:
+			// (A) every return of every collector is dominated by the closed side of a receive on its channel, or
+			// (B) the function drains every channel until closed (a loop over the channels whose body cannot get back
+			//     to the loop head without passing a receive's closed side) before any return.
+			{
+				var wait *ssa.Call
+				allInstrs(fn, func(in ssa.Instruction) {
+					if c, ok := in.(*ssa.Call); ok && calleeFullName(c.Common()) == "(*golang.org/x/sync/errgroup.Group).Wait" {
+						wait = c
+					}
+				})
+				if wait != nil {
+					// closed-side blocks of receives in f: successors taken when ok == false
+					closedSides := func(f *ssa.Function) map[*ssa.BasicBlock]bool {
+						out := map[*ssa.BasicBlock]bool{}
+						for _, b := range f.Blocks {
+							if len(b.Instrs) == 0 || len(b.Succs) != 2 {
+								continue
+							}
+							ifi, ok := b.Instrs[len(b.Instrs)-1].(*ssa.If)
+							if !ok {
+								continue
+							}
+							cond, pol := flattenCond(ifi.Cond, true)
+							ex, ok := cond.(*ssa.Extract)
+							if !ok {
+								continue
+							}
+							isOK := false
+							switch t := ex.Tuple.(type) {
+							case *ssa.UnOp:
+								isOK = t.Op == token.ARROW && t.CommaOk && ex.Index == 1
+							case *ssa.Select:
+								// select results: (index, recvOk, values...)
+								isOK = ex.Index == 1
+							}
+							if !isOK {
+								continue
+							}
+							// pol == true: the condition is `ok`; the closed side is the false successor
+							if pol {
+								out[b.Succs[1]] = true
+							} else {
+								out[b.Succs[0]] = true
+							}
+						}
+						return out
+					}
+					dominatedByAny := func(b *ssa.BasicBlock, set map[*ssa.BasicBlock]bool) bool {
+						for s := range set {
+							if s == b || s.Dominates(b) {
+								return true
+							}
+						}
+						return false
+					}
+					allReturnsAfterClose := func(f *ssa.Function) (bool, string) {
+						cs := closedSides(f)
+						bad := ""
+						n := 0
+						allInstrs(f, func(in ssa.Instruction) {
+							if r, ok := in.(*ssa.Return); ok {
+								n++
+								if !dominatedByAny(r.Block(), cs) && bad == "" {
+									bad = p.InstrPos(r)
+								}
+							}
+						})
+						return n > 0 && bad == "", bad
+					}
+					okA, firstBad := true, ""
+					nCol := 0
+					allInstrs(fn, func(in ssa.Instruction) {
+						c, ok := in.(*ssa.Call)
+						if !ok || calleeFullName(c.Common()) != "(*golang.org/x/sync/errgroup.Group).Go" {
+							return
+						}
+						nCol++
+						mk, isMk := resolve(c.Common().Args[1]).(*ssa.MakeClosure)
+						if !isMk {
+							okA = false
+							return
+						}
+						if good, bad := allReturnsAfterClose(mk.Fn.(*ssa.Function)); !good {
+							okA = false
+							if firstBad == "" {
+								firstBad = bad
+							}
+						}
+					})
+					okB := false
+					{
+						// a drain in fn itself: every return of fn dominated by the closed side of a receive, or by the
+						// exit of a loop whose body must pass one
+						cs := closedSides(fn)
+						if len(cs) > 0 {
+							all := true
+							allInstrs(fn, func(in ssa.Instruction) {
+								r, ok := in.(*ssa.Return)
+								if !ok {
+									return
+								}
+								if dominatedByAny(r.Block(), cs) {
+									return
+								}
+								// outer loop over the channels: some loop header h dominates the return, and from h's
+								// body successor the header cannot be reached again without passing a closed side
+								found := false
+								for _, h := range fn.Blocks {
+									if !h.Dominates(r.Block()) || !canReachNonTrivially(h, h) || len(h.Succs) != 2 {
+										continue
+									}
+									for _, body := range h.Succs {
+										if !canReach(body, h) {
+											continue
+										}
+										seen := map[*ssa.BasicBlock]bool{}
+										var esc bool
+										var walk func(b *ssa.BasicBlock)
+										walk = func(b *ssa.BasicBlock) {
+											if seen[b] || cs[b] || esc {
+												return
+											}
+											seen[b] = true
+											if b == h {
+												esc = true
+												return
+											}
+											for _, s2 := range b.Succs {
+												walk(s2)
+											}
+										}
+										walk(body)
+										if !esc {
+											found = true
+										}
+									}
+								}
+								if !found {
+									all = false
+								}
+							})
+							okB = all
+						}
+					}
+					construct := "stages have stopped when the operation returns"
+					switch {
+					case nCol > 0 && okA:
+						l.ok(fid, construct, p.InstrPos(wait), "every collector returns only after it has seen its stage's error channel closed", true, "join")
+					case okB:
+						l.ok(fid, construct, p.InstrPos(wait), "every error channel is drained until closed before the function returns", true, "join")
+					default:
+						l.bad(fid, construct, p.InstrPos(wait), "a collector returns (e.g. at "+firstBad+") on the first error or on cancellation without having seen its stage's error channel closed, and nothing else waits for the stages: the operation returns while stage goroutines are still running, so they may still write to the caller's writer, call the callback or touch the filesystem after the call has returned", "join")
+					}
+				}
 			}
 			// collectors: closures handed to errgroup.Group.Go must wait on the group's context
 			for _, f := range family {
@@ -1153,6 +1451,13 @@ func entryLocked(p *Prog, mi *multiInfo) map[*ssa.Function]bool {
 				if heldAt(recv, in) {
 					continue
 				}
+				// the receiver is a part of the object whose lock is held: x.inner.m() under x's lock (the embedded /
+				// owned object is created with its owner and reached through it only)
+				if ld, isL := isLoad(stripConv(recv)); isL {
+					if fa, isFA := ld.(*ssa.FieldAddr); isFA && heldAt(fa.X, in) {
+						continue
+					}
+				}
 				// caller itself entered locked on the same receiver
 				caller := ci.Parent()
 				if locked[caller] && len(caller.Params) > 0 && sameVar(recv, caller.Params[0]) {
@@ -1392,10 +1697,135 @@ func ruleCONC6(w *World) []Ob {
 		refs = append(refs, r)
 	}
 	sort.Slice(refs, func(i, j int) bool { return refs[i].String() < refs[j].String() })
+	// scratch buffers: a slice field that every writer refills from its own truncation (x.buf = f(x.buf[:0], …)) and
+	// that is read only after such a refill in the same function keeps capacity, not content, between uses
+	truncOf := func(v ssa.Value, fa *ssa.FieldAddr) bool {
+		var rec func(v ssa.Value, d int) bool
+		rec = func(v ssa.Value, d int) bool {
+			if v == nil || d > 4 {
+				return false
+			}
+			switch x := v.(type) {
+			case *ssa.Slice:
+				if x.High != nil {
+					if k, isK := constInt(x.High); isK && k == 0 {
+						if ld, isL := isLoad(x.X); isL {
+							if f2, isFA := ld.(*ssa.FieldAddr); isFA && f2.Field == fa.Field && sameVar(f2.X, fa.X) {
+								return true
+							}
+						}
+					}
+				}
+				return false
+			case *ssa.Call:
+				for _, a := range x.Common().Args {
+					if rec(a, d+1) {
+						return true
+					}
+				}
+			}
+			return false
+		}
+		return rec(v, 0)
+	}
+	scratch := map[fieldRef]bool{}
+	for r := range by {
+		okAll := true
+		var refills []*ssa.Store
+		for _, a := range ca.acc {
+			if a.ref != r || !a.write {
+				continue
+			}
+			st, isSt := a.instr.(*ssa.Store)
+			if !isSt || !truncOf(st.Val, a.addr) {
+				okAll = false
+				break
+			}
+			refills = append(refills, st)
+		}
+		if !okAll || len(refills) == 0 {
+			continue
+		}
+		for _, a := range ca.acc {
+			if a.ref != r || a.write {
+				continue
+			}
+			covered := false
+			for _, st := range refills {
+				if st.Parent() != a.instr.Parent() {
+					continue
+				}
+				// the load that feeds the truncation itself, or a load after the refill
+				if ld, isV := a.instr.(ssa.Value); isV && ld.Referrers() != nil {
+					for _, rf := range *ld.Referrers() {
+						if sl, isSl := rf.(*ssa.Slice); isSl && sl.High != nil {
+							if k, isK := constInt(sl.High); isK && k == 0 {
+								covered = true
+							}
+						}
+					}
+				}
+				if st.Block() == a.instr.Block() && instrIndex(st) < instrIndex(a.instr) || (st.Block() != a.instr.Block() && st.Block().Dominates(a.instr.Block())) {
+					covered = true
+				}
+			}
+			if !covered {
+				okAll = false
+			}
+		}
+		if okAll {
+			scratch[r] = true
+		}
+	}
 	for _, r := range refs {
 		a := by[r]
+		if scratch[r] {
+			l.ok("shared "+r.typ, "field "+r.field+" written by worker-reachable code", a.pos, "a scratch buffer: every writer refills it from its own truncation (buf[:0]) and every read follows such a refill in the same function, so only capacity survives from one root to the next", false, "learned")
+			continue
+		}
 		l.bad("shared "+r.typ, "field "+r.field+" written by worker-reachable code", a.pos,
 			"state learnt while handling one root is visible to the workers handling other roots (written in "+strings.Join(dedupSorted(a.sites), ", ")+"): the result for a root can depend on which other roots were processed first", "learned")
+	}
+	// containers reached through a shared object and filled by worker code — a sync.Map, or a map / slice under a lock:
+	// free of data races, but what one worker stores while handling its root is what another worker finds
+	syncMapWrites := map[string]bool{"Store": true, "LoadOrStore": true, "Swap": true, "CompareAndSwap": true, "CompareAndDelete": true, "Delete": true, "LoadAndDelete": true, "Clear": true}
+	var contFns []*ssa.Function
+	for fn := range ca.mi.multi {
+		contFns = append(contFns, fn)
+	}
+	sort.Slice(contFns, func(i, j int) bool { return p.FuncID(contFns[i]) < p.FuncID(contFns[j]) })
+	for _, fn := range contFns {
+		fn := fn
+		num := numbered{}
+		allInstrs(fn, func(in ssa.Instruction) {
+			var cont ssa.Value
+			what := ""
+			switch x := in.(type) {
+			case *ssa.MapUpdate:
+				cont, what = x.Map, "map update"
+			case ssa.CallInstruction:
+				f := x.Common().StaticCallee()
+				if f == nil || f.Signature.Recv() == nil || len(x.Common().Args) == 0 {
+					return
+				}
+				if rt := f.Signature.Recv().Type(); !isPointerToNamed(rt, "sync", "Map") {
+					return
+				}
+				if !syncMapWrites[f.Name()] {
+					return
+				}
+				cont, what = x.Common().Args[0], "sync.Map."+f.Name()
+			}
+			if cont == nil || !(ca.mi.shared[cont] || ca.mi.shared[stripConv(cont)]) {
+				return
+			}
+			switch resolve(cont).(type) {
+			case *ssa.MakeMap, *ssa.Alloc:
+				return
+			}
+			l.bad(p.FuncID(fn), num.name(what+" on "+describeValue(cont)), p.InstrPos(in),
+				"worker-reachable code stores into a container that all workers share: what is learnt while handling one root is found by the workers handling other roots, so the result for a root can depend on which other roots were processed first (simple mode has no such memory)", "learned")
+		})
 	}
 	// the Markdown parser learns the document's indentation from the lines it has seen; in simple mode one parser
 	// lives for the whole document.  A parser constructed per block / per worker learns it per root instead, so
@@ -1427,6 +1857,85 @@ func ruleCONC6(w *World) []Ob {
 	return l.list
 }
 
+// outputStage: the worker's type (or a type it embeds) has a method that is handed an io.Writer — the operation's
+// output destination, given per call (spread(ctx, w, roots)).
+func outputStage(wk *ssa.Function) bool {
+	if wk.Signature.Recv() == nil {
+		return true
+	}
+	t := wk.Signature.Recv().Type()
+	ms := types.NewMethodSet(t)
+	for i := 0; i < ms.Len(); i++ {
+		sig, ok := ms.At(i).Type().(*types.Signature)
+		if !ok {
+			continue
+		}
+		for j := 0; j < sig.Params().Len(); j++ {
+			if isIOWriter(sig.Params().At(j).Type()) {
+				return true
+			}
+		}
+	}
+	return false
+}
+
+func isIOWriter(t types.Type) bool {
+	n, ok := types.Unalias(t).(*types.Named)
+	return ok && n.Obj().Pkg() != nil && n.Obj().Pkg().Path() == "io" && n.Obj().Name() == "Writer"
+}
+
+// auxWritesLocked: every write to a shared writer reachable from the call is made while the lock of the object
+// holding that writer (x.mu for x.w) is held in the writing function.
+func auxWritesLocked(p *Prog, ci ssa.CallInstruction, ca *concAnalysis) bool {
+	ok := true
+	n := 0
+	for fn := range reachableFrom(p, p.ModCallees(ci), nil) {
+		allInstrs(fn, func(in ssa.Instruction) {
+			c, isC := in.(ssa.CallInstruction)
+			if !isC {
+				return
+			}
+			wv, isW := writeTarget(p, c)
+			if !isW {
+				return
+			}
+			a := stripConv(wv)
+			if !ca.mi.shared[a] {
+				return
+			}
+			n++
+			ld, isL := isLoad(a)
+			if !isL {
+				ok = false
+				return
+			}
+			fa, isFA := ld.(*ssa.FieldAddr)
+			if !isFA || !heldAt(fa.X, in) {
+				ok = false
+			}
+		})
+	}
+	return ok && n > 0
+}
+
+// writeTarget: the call writes to a writer it is handed — an external writing function (fmt.Fprint, io.WriteString,
+// Encoder.Encode, …) or a direct Write / WriteString / WriteByte on an io.Writer-like interface value; returns that writer.
+func writeTarget(p *Prog, ci ssa.CallInstruction) (ssa.Value, bool) {
+	com := ci.Common()
+	if f := com.StaticCallee(); f != nil && !p.InModule(f) && classifyExternal(f) == EffWriteGiven && len(com.Args) > 0 {
+		return com.Args[0], true
+	}
+	if com.IsInvoke() {
+		switch com.Method.Name() {
+		case "Write", "WriteString", "WriteByte", "WriteRune":
+			if com.Method.Pkg() == nil || com.Method.Pkg().Path() == "io" || !strings.HasPrefix(com.Method.Pkg().Path(), modulePath) {
+				return com.Value, true
+			}
+		}
+	}
+	return nil, false
+}
+
 func ruleCONC5(w *World) []Ob {
 	p := w.D()
 	l := &obs{rule: "CONC-5", cfg: "D"}
@@ -1439,10 +1948,8 @@ func ruleCONC5(w *World) []Ob {
 			if !ok {
 				return
 			}
-			if f := ci.Common().StaticCallee(); f != nil && !p.InModule(f) && classifyExternal(f) == EffWriteGiven {
-				if len(ci.Common().Args) > 0 && ca.mi.shared[stripConv(ci.Common().Args[0])] {
-					writes[fn] = true
-				}
+			if wv, ok := writeTarget(p, ci); ok && ca.mi.shared[stripConv(wv)] {
+				writes[fn] = true
 			}
 		})
 	}
@@ -1492,6 +1999,8 @@ func ruleCONC5(w *World) []Ob {
 				l.ok(fid, construct, p.InstrPos(in), "called between Lock and Unlock of the worker's receiver: one root is written as one uninterrupted block", true, "critical")
 			} else if h := ci.Common().StaticCallee(); h != nil && len(wk.Params) > 0 && len(h.Params) > 0 && len(ci.Common().Args) > 0 && sameVar(ci.Common().Args[0], wk.Params[0]) && locksAroundWrites(p, h, writes) {
 				l.ok(fid, construct, p.InstrPos(in), "the helper "+fname(h)+" takes the receiver's lock around everything it writes for the root: one root is written as one uninterrupted block", true, "critical")
+			} else if !outputStage(wk) && auxWritesLocked(p, ci, ca) {
+				l.ok(fid, construct, p.InstrPos(in), "the stage has no output writer of its own (no method of its type takes an io.Writer); what it writes goes to an auxiliary writer, each write under the lock of the object that owns that writer — per-root contiguity is required of the output stages only", false, "critical")
 			} else {
 				l.bad(fid, construct, p.InstrPos(in), "a call that writes to the shared writer is made without the spreader's lock held in the worker frame: lines of different roots can interleave", "critical")
 			}
@@ -1503,7 +2012,7 @@ func ruleCONC5(w *World) []Ob {
 				if !ok {
 					return
 				}
-				if f := ci.Common().StaticCallee(); f != nil && !p.InModule(f) && classifyExternal(f) == EffWriteGiven && len(ci.Common().Args) > 0 && ca.mi.shared[stripConv(ci.Common().Args[0])] {
+				if wv, ok := writeTarget(p, ci); ok && ca.mi.shared[stripConv(wv)] {
 					n++
 					construct := num.name("direct write " + calleeString(ci.Common()))
 					if len(wk.Params) > 0 && heldAt(wk.Params[0], in) {
@@ -1631,7 +2140,7 @@ func locksAroundWrites(p *Prog, h *ssa.Function, writes map[*ssa.Function]bool) 
 				reaches = true
 			}
 		}
-		if f := ci.Common().StaticCallee(); f != nil && !p.InModule(f) && classifyExternal(f) == EffWriteGiven {
+		if _, ok := writeTarget(p, ci); ok {
 			reaches = true
 		}
 		if !reaches {
